@@ -242,6 +242,20 @@ CHECKS = {
         "compared exactly outside a 1e-9 band around the hull / 1e-12 around triangle edges).",
    technique="Coq proofs over Q relative to a triangulation oracle + vm_compute correspondence with scipy's simplices + metamorphic oracle",
    design="5/C05"),
+ "C14": dict(
+   text="Machine-checked proof (Coq 8.16.1) about a Gallina model of basin retrieval over an arbitrary world of files "
+        "(basins_retrieve with priority sort, the ignored-key cut, format-class permission check, identifier "
+        "verification, availability oracle; build/lookup on explicit fuel): opening terminates for every world "
+        "(fuel = distinct keys + 1 is never exhausted; the set of not-yet-ignored keys strictly decreases along every "
+        "followed edge), no ignored key is instantiated at any depth, a non-hdf5 root never opens a file by local "
+        "path at any depth, data are only served through existing matching basins, listed features are justified by "
+        "reachable basins. Tied by correspondence on exhaustive and random basin graphs opened locally and through "
+        "RTDC_HTTP / RTDC_S3 against loopback servers.",
+   note="Trusted: Coq kernel+vm_compute; model tied by differential testing; availability is an oracle fixed by the "
+        "world; NOT modelled: availability-checker threads, DCOR transport (unreachable here). Known finding: "
+        "C14-mismatch-listed-unverified.",
+   technique="Coq termination/measure proof and reachability invariants over arbitrary basin graphs + vm_compute correspondence on generated graphs",
+   design="5/C14"),
 }
 
 def main():
